@@ -7,7 +7,8 @@ rounding function `R.rnd : ℚ → ℚ` (every IEEE-754 rounding mode restricted
 this is NOT proved here about Lean's `Float`, it is the standard abstraction).  `fmod` is exact, as in C.
 The model functions `wrap` / `wrapSep` of `JF.Model.Periodic` are instantiated at this scalar type unchanged.
 -/
-namespace JF
+namespace JF.Periodic
+open JF
 
 /-- an abstract rounding: monotone and idempotent -/
 structure Rnd where
@@ -38,7 +39,7 @@ instance : BEq (RQ R) := ⟨fun a b => a.val == b.val⟩
 end RQ
 
 /-- the scalar operations over `RQ R`: exact `fmod` (C semantics), signed zeros not distinguished -/
-def Ops.rq (R : Rnd) : Ops (RQ R) where
+def opsRq (R : Rnd) : Ops (RQ R) where
   ofInt n := ⟨(n : ℚ)⟩
   floor x := ⟨(⌊x.val⌋ : ℚ)⟩
   fmod x y := ⟨Ops.rat.fmod x.val y.val⟩
@@ -50,9 +51,9 @@ def Ops.rq (R : Rnd) : Ops (RQ R) where
 /-- Python's `x % L` in rounded arithmetic is the exact result, rounded ONCE
 (given that `fmod`'s exact result is representable, which holds for binary floating point) -/
 theorem rq_pymod (R : Rnd) (x L : RQ R) (h0 : R.Rep 0) (hm : R.Rep (Ops.rat.fmod x.val L.val)) :
-    (pymod (Ops.rq R) x L).val = R.rnd (pymod Ops.rat x.val L.val) := by
+    (pymod (opsRq R) x L).val = R.rnd (pymod Ops.rat x.val L.val) := by
   unfold pymod
-  simp only [Ops.rq, RQ.bne_iff, RQ.lt_iff, rat_ofInt, rat_zeroLike, Int.cast_zero]
+  simp only [opsRq, RQ.bne_iff, RQ.lt_iff, rat_ofInt, rat_zeroLike, Int.cast_zero]
   by_cases hz : Ops.rat.fmod x.val L.val = 0
   · simp [hz]
     exact h0.symm
@@ -72,4 +73,4 @@ theorem fmod_rat_fixed {y L : ℚ} (h0 : 0 ≤ y) (h1 : y < L) : Ops.rat.fmod y 
     · simp; rw [div_lt_one hL]; exact h1
   rw [this]; simp
 
-end JF
+end JF.Periodic
